@@ -53,9 +53,9 @@ THRESHOLDS = {
         'mem::is_ascii_impl': [I((0, 0x7F))],
         'mem::is_basic_latin_impl': [I((0, 0x7F))],
         'mem::is_utf16_latin1_impl': [I((0, 0xFF))],
-        'ascii::is_ascii::{closure#0}': [I((0, 0x7F))],
-        'ascii::is_basic_latin::{closure#0}': [I((0, 0x7F))],
-        'ascii::is_utf16_latin1::{closure#0}': [I((0, 0xFF))],
+        'ascii::is_ascii': [I((0, 0x7F))],
+        'ascii::is_basic_latin': [I((0, 0x7F))],
+        'ascii::is_utf16_latin1': [I((0, 0xFF))],
         'mem::check_utf16_for_latin1_and_bidi_impl': [I((0, 0xFF))],
     },
     'simd': {
@@ -64,7 +64,7 @@ THRESHOLDS = {
         'mem::is_utf16_latin1_impl': [I((0, 0xFF))],
         'mem::check_utf16_for_latin1_and_bidi_impl': [I((0, 0xFF))],
         'mem::is_str_latin1_impl': [I((0, 0xC3))],
-        'mem::is_str_latin1_bool_impl::{closure#0}': [I((0, 0xC3))],
+        'mem::is_str_latin1_bool_impl': [I((0, 0xC3))],
     },
 }
 THRESHOLDS['noalloc'] = THRESHOLDS['default']
